@@ -91,7 +91,7 @@ PROPS = {
         "verus": [{"unit": U1, "fns": ["NodeState::apply_delta", "NodeState::try_set_heartbeat", "ClusterState::apply_delta"]},
                   {"unit": U2, "fns": ["DeltaBuilder::apply_op", "DeltaBuilder::flush", "DeltaSerializer::try_add_kv", "DeltaSerializer::try_add_node",
                                        "DeltaSerializer::try_set_max_version", "DeltaSerializer::try_add_op", "DeletionStatusMutation::from"]}],
-        "native": [N_C14],
+        "native": [N_C14, N_C04, N_SVV],
         "kani": [],
         "assumptions": [A_STD, A_KEY, A_SVV, A_TERM, A_TEST_CFG],
         "level_text": "Induction step over the transport of entries, proved: try_add_kv copies key, value, version and kind of status verbatim into the current member's op; the decoder appends a key-value to the current member only, never accepts an op before a member header or a duplicate member; apply_delta's result contains only old entries or verbatim copies of delta entries and its max version is the old one or the delta's; ClusterState::apply_delta touches only the state with the delta's id; try_set_heartbeat stores the old value or the argument and never decreases.",
@@ -129,8 +129,9 @@ PROPS = {
     "C09": {
         "level": "proof",
         "verus": [{"unit": U2, "fns": ["DeltaBuilder::apply_op", "DeltaBuilder::flush", "DeltaBuilder::finish", "delta_deserialize"]},
-                  {"unit": U1, "fns": ["NodeState::apply_delta", "ClusterState::apply_delta", "NodeState::try_set_heartbeat"]}],
-        "native": [N_C09, N_C15, {"test": "verif_c09_bytes", "pairs": []}],
+                  {"unit": U1, "fns": ["NodeState::check_delta_status", "NodeState::reset_node", "NodeState::apply_delta", "ClusterState::apply_delta",
+                                       "ClusterState::node_state_mut", "NodeState::try_set_heartbeat"]}],
+        "native": [N_C09, N_C15, {"test": "verif_c09_bytes", "pairs": []}, N_C04, N_SVV],
         "kani": [],
         "assumptions": [A_STD, A_KEY, A_SVV, A_TERM, A_DECODE, A_TEST_CFG],
         "level_text": "Proved: the decoder state machine (DeltaBuilder::apply_op over any op sequence, loop invariant in Delta::deserialize) only yields deltas whose member deltas have max version >= every key-value version, ascending versions and distinct members; under exactly that well-formedness NodeState::apply_delta and ClusterState::apply_delta contain no reachable assert!/panic for ANY such delta (no honesty assumption) and keep frontier monotonicity.",
@@ -287,7 +288,7 @@ PROPS["C04"]["kani"] = [K_CDS]
 PROPS["C14"]["kani"] = [K_CDS]
 PROPS["C11"]["kani"] = [K_TSH, K_HBC]
 PROPS["C03"]["kani"] = [K_TSH]
-PROPS["C09"]["kani"] = [K_LSN]
+PROPS["C09"]["kani"] = [K_LSN, K_CDS]
 PROPS["C15"]["kani"] = [K_LSN]
 A_KANI = "Kani harnesses replace the `tracing` dependency by a no-op crate (kani-compiler ICE on the real macros), stub alloc::fmt::format and Backtrace::capture on error paths and forget anyhow errors instead of dropping them; none of these carries program state"
 for _p in ("C04", "C14", "C11", "C03", "C09", "C15"):
